@@ -304,18 +304,25 @@ def b64Encode : Bytes → Bytes
 
 /-! ### key names -/
 
-def keyNames : List (Nat × String) :=
-  [(0, "mandatory"), (1, "alpn"), (2, "no-default-alpn"), (3, "port"), (4, "ipv4hint"),
-   (5, "echconfig"), (6, "ipv6hint")]
+/-- the names `mandatory alpn no-default-alpn port ipv4hint echconfig ipv6hint` as bytes (explicit, so
+that the kernel can evaluate the model on concrete inputs) -/
+def keyNames : List (Nat × Bytes) :=
+  [(0, [0x6d, 0x61, 0x6e, 0x64, 0x61, 0x74, 0x6f, 0x72, 0x79]),
+   (1, [0x61, 0x6c, 0x70, 0x6e]),
+   (2, [0x6e, 0x6f, 0x2d, 0x64, 0x65, 0x66, 0x61, 0x75, 0x6c, 0x74, 0x2d, 0x61, 0x6c, 0x70, 0x6e]),
+   (3, [0x70, 0x6f, 0x72, 0x74]),
+   (4, [0x69, 0x70, 0x76, 0x34, 0x68, 0x69, 0x6e, 0x74]),
+   (5, [0x65, 0x63, 0x68, 0x63, 0x6f, 0x6e, 0x66, 0x69, 0x67]),
+   (6, [0x69, 0x70, 0x76, 0x36, 0x68, 0x69, 0x6e, 0x74])]
 
 /-- `strToParamNum[name]` -/
 def keyOfName (name : Bytes) : Option Nat :=
-  (keyNames.find? fun kv => str kv.2 = name).map (·.1)
+  (keyNames.find? fun kv => kv.2 = name).map (·.1)
 
 /-- `paramNumToStr[k]` (the empty string for a key that is not in the map) -/
 def nameOfKey (k : Nat) : Bytes :=
   match keyNames.find? fun kv => kv.1 = k with
-  | some kv => str kv.2
+  | some kv => kv.2
   | none => []
 
 /-! ### value marshallers (marshallers.go) -/
